@@ -212,7 +212,7 @@ func execReplay(root string, rule replayRule, body string, params map[string]str
 	ovData, _ := json.Marshal(ov)
 	ovFile := filepath.Join(scratch, "overlay.json")
 	os.WriteFile(ovFile, ovData, 0o644)
-	args := []string{"test", "-overlay", ovFile, "-vet=off", "-count=1", "-timeout", "60s", "-run", "^TestVerifReplay$"}
+	args := []string{"test", "-overlay", ovFile, "-vet=off", "-count=1", "-v", "-timeout", "100s", "-run", "^TestVerifReplay$"}
 	if rule.Tags != "" {
 		args = append(args, "-tags", rule.Tags)
 	}
